@@ -424,6 +424,16 @@ def run(ctx):
         reach |= vt.reachable(t, cut_blocks=cmp_blocks)
     ok = bool(work) and bool(cmp_true) and not (reach & set(work)) and all(w not in vt.reachable(0, cut_blocks=[
         p for cb in cmp_blocks for p in vt.preds(cb)]) for w in work)
+    # the loop runs over the whole `tokens` slice that is validated afterwards
+    whole = False
+    tok_param = next((l for l in range(1, vt.argc + 1) if vt.locals[l].get("n") == "tokens"), None)
+    for bi, t in vt.calls():
+        d = t["f"].get("def", "")
+        if d.endswith("IntoIterator>::into_iter") or d.endswith("::iter"):
+            e = vt.expr(t["args"][0])
+            if L.root_local(vt, e) == tok_param and tok_param is not None:
+                whole = True
+    ok = ok and whole
     ctx.check(ok, "C20-R6", "validate_tokens_raw:range-check",
               "every token id is compared with vocab_size before validation; an out-of-range id returns early",
               "validate_tokens_raw no longer range-checks token ids before handing them to the parser", site=vt.where())
